@@ -260,6 +260,7 @@ class Real:
             serializers.SerializerBase.register_dict_to_class("%s.PoolC%d" % (self.MODULE, c), self._from_dict)
         self.daemon = None
         self.seq = 0
+        self.last_msg = ""
 
     @staticmethod
     def _from_dict(classname, d):
@@ -359,6 +360,7 @@ class Real:
 
     def exc_tok(self, x):
         E = self.errors
+        self.last_msg = str(x)[:40]
         if isinstance(x, E.DaemonError):
             return "err:D"
         for t, n in ((TypeError, "T"), (ValueError, "V"), (AttributeError, "A")):
@@ -513,6 +515,32 @@ class Real:
             v = dct["_pyroDaemon"]
             dm = "none" if v is None else ("this" if v is self.daemon else "?other")
         return pid + "/" + dm
+
+
+def describe(op):
+    """the Python call a step stands for"""
+    def ident(t):
+        return {"D": "'Pyro.Daemon'"}.get(t) or (repr(NAMES[int(t[1:])]) if t[0] == "n" else "<generated id #%s>" % t[1:])
+
+    def target(t):
+        return {"N": "None", "X": "[1, 2, 3]"}.get(t) or (t if t[0] in "oc" else ident(t))
+    k = op[0]
+    if k == "R":
+        ia = {"N": "None", "E": "''", "X": "7"}.get(op[2]) or ident(op[2])
+        return "daemon.register(%s, %s, force=%s, weak=%s)" % (op[1], ia, op[3] == "1", op[4] == "1")
+    if k == "U":
+        return "daemon.unregister(%s)" % target(op[1])
+    if k == "G":
+        return "del o%s  # last reference outside the daemon" % op[1]
+    if k == "F":
+        return "daemon.uriFor(%s)" % target(op[1])
+    if k == "P":
+        return "daemon.proxyFor(%s)" % target(op[1])
+    if k == "C":
+        return "call ping() on id %s" % ident(op[1])
+    if k == "V":
+        return "return o%s from a remote method (%s)" % (op[1], SERS[op[2]])
+    return "DaemonObject.registered()"
 
 
 def _canon_model(line):
@@ -681,7 +709,7 @@ class Spec:
 # ----------------------------------------------------------------------------------------------------------
 def _gen_history(rng):
     n = rng.choice([3, 5, 8, 12, 16, 20, 25])
-    nobj = rng.choice([2, 3, 6])          # small pools collide more
+    nobj = rng.choice([2, 3, 4, 6])       # small pools collide more
     nid = rng.choice([1, 2, 4])
 
     def ent():
@@ -710,7 +738,7 @@ def _gen_history(rng):
             q = rng.random()
             ia = "N" if q < 0.22 else "E" if q < 0.27 else "X" if q < 0.30 else ident()
             ops.append(["R", ent(), ia, "1" if rng.random() < 0.3 else "0", "1" if rng.random() < 0.3 else "0"])
-        elif r < 0.53:
+        elif r < 0.55:
             ops.append(["U", target()])
         elif r < 0.60:
             ops.append(["G", str(rng.randrange(nobj))])
@@ -748,9 +776,12 @@ def _run_history(real, ops, ctx=None, verbose=False):
         reg = real.registry()
         spec.observe(op, res, reg, gens_before)
         if verbose:
-            print("   %-22s -> %-28s table %s" % (" ".join(op), res, ",".join("%s=%s%s" % (i, r, "(weak)" if w else "") for i, (r, w) in sorted(reg.items()))))
+            print("   %-62s -> %-26s table {%s}" % (describe(op), res, ", ".join("%s: %s%s" % (i, r, " (weak)" if w else "") for i, (r, w) in sorted(reg.items()))))
         if ctx is not None:
-            ctx.count("%s:%s" % (op[0], res.split(":")[0] if op[0] != "V" else res.split(">")[0].split(":")[0]))
+            key = "%s:%s" % (op[0], res.split(">")[0].split(":")[0] if op[0] in "VPF" else res.split(",")[0] if op[0] != "L" else "ids")
+            if res.startswith("err:"):
+                key += ":" + real.last_msg
+            ctx.count(key)
     line = ";".join(results) + " | " + real.state_str()
     real.end_history()
     return line, spec
@@ -761,26 +792,35 @@ def _run(ctx, name, n, do_model):
     cfg = "".join("1" if x else "0" for x in f["cfg"])
     rng = ctx.sub_rng(name)
     cases = [{"name": fn, "ops": ops} for fn, ops in _corpus()] if name == "corr" else []
-    for _ in range(n):
-        cases.append({"name": None, "ops": _gen_history(rng)})
     real = Real()
-    lines, reals = [], []
     try:
-        for c in cases:
-            ops = c["ops"]
-            line, spec = _run_history(real, ops, ctx)
-            ctx.evaluations += 1
-            accepted = sum(1 for r in line.split(" | ")[0].split(";") if r.startswith("uri:"))
-            if accepted >= 2 and (">reached:o" in line or ";reached:o" in line or ";inst:" in line):
-                ctx.nontriv(json.dumps(ops))
-            for sig, desc in spec.fails:
-                ctx.fail(sig, desc, {"ops": ops, "source": c["name"] or "generated", "cfg": cfg})
-            if len(ctx.samples) < 4 and 4 < len(ops) <= 8 and accepted >= 2:
-                ctx.sample({"ops": [" ".join(o) for o in ops], "real": line})
-            reals.append(line)
-            lines.append("h %s %d %d %d %s" % (cfg, NOBJ, NCLS, len(ops), " ".join(" ".join(o) for o in ops)))
+        done = 0
+        while done < n or cases:
+            while len(cases) < 20000 and done < n:
+                cases.append({"name": None, "ops": _gen_history(rng)})
+                done += 1
+            _run_chunk(ctx, real, cfg, cases, do_model)
+            cases = []
     finally:
         real.close()
+
+
+def _run_chunk(ctx, real, cfg, cases, do_model):
+    lines, reals = [], []
+    for c in cases:
+        ops = c["ops"]
+        line, spec = _run_history(real, ops, ctx)
+        ctx.evaluations += 1
+        accepted = sum(1 for r in line.split(" | ")[0].split(";") if r.startswith("uri:"))
+        if accepted >= 2 and (">reached:o" in line or ";reached:o" in line or ";inst:" in line):
+            ctx.nontriv(json.dumps(ops))
+        for sig, desc in spec.fails:
+            ctx.fail(sig, desc + "  [history: " + "; ".join(describe(o) for o in ops) + "]",
+                     {"ops": ops, "source": c["name"] or "generated", "cfg": cfg})
+        if len(ctx.samples) < 4 and 4 < len(ops) <= 8 and accepted >= 2:
+            ctx.sample({"ops": [describe(o) for o in ops], "real": line})
+        reals.append(line)
+        lines.append("h %s %d %d %d %s" % (cfg, NOBJ, NCLS, len(ops), " ".join(" ".join(o) for o in ops)))
     if do_model:
         outs = common.run_driver("drv_c16", lines)
         ctx.corr_cases += len(lines)
@@ -790,13 +830,13 @@ def _run(ctx, name, n, do_model):
 
 
 def correspondence(ctx):
-    _run(ctx, "corr", ctx.n(1500, 40000), True)
+    _run(ctx, "corr", ctx.n(12000, 300000), True)
 
 
 def oracle(ctx):
     # step D runs inside _run on the same histories; in search mode it runs again on fresh ones
     if ctx.search_mode:
-        _run(ctx, "search", ctx.n(3000, 40000), False)
+        _run(ctx, "search", ctx.n(10000, 100000), False)
 
 
 def replay(ctx, case):
